@@ -312,8 +312,12 @@ def run_check(prop, tier="quick", level_note=None):
         results = [_unit_worker(a) for a in args]
     known, _fixed = load_known()
     known = [k for k in known if k["property"] == prop]
-    os.makedirs(os.path.join(VERIF, "evidence"), exist_ok=True)
-    os.makedirs(os.path.join(VERIF, "replay"), exist_ok=True)
+    # evidence/replay files of runs against a scratch copy (self-tests, seeded changes) must not overwrite those of /repo
+    scratch_run = os.path.abspath(repo) != "/repo"
+    ev_dir = os.path.join(VERIF, "evidence") if not scratch_run else os.path.join(os.environ.get("VERIF_TMP", repo), "evidence")
+    rp_dir = os.path.join(VERIF, "replay") if not scratch_run else os.path.join(VERIF, "replay", "scratch")
+    os.makedirs(ev_dir, exist_ok=True)
+    os.makedirs(rp_dir, exist_ok=True)
     violations = []
     undecided = []
     crashes = []
@@ -411,7 +415,7 @@ def run_check(prop, tier="quick", level_note=None):
         if rid in seen_rep:
             continue
         seen_rep.add(rid)
-        path = os.path.join(VERIF, "replay", rid + ".json")
+        path = os.path.join(rp_dir, rid + ".json")
         with open(path, "w") as f:
             json.dump(dict(property=prop, obligation=o["name"], kind=o.get("kind"), verdict="refuted", unit=r["unit"],
                            model=o.get("model", {}), replay=o.get("replay"), solver_output=o.get("solver_output", ""),
@@ -460,7 +464,7 @@ def run_check(prop, tier="quick", level_note=None):
     ev = dict(property_id=prop, tier=tier, seed=seed, level=level, coverage=cov,
               assumptions=assumptions + ["every `external` listed in trusted_base is an assumed contract"],
               wall_s=round(wall, 2), violations=len([1 for l in lines if l.startswith("VIOLATION")]))
-    with open(os.path.join(VERIF, "evidence", prop + ".json"), "w") as f:
+    with open(os.path.join(ev_dir, prop + ".json"), "w") as f:
         json.dump(ev, f, indent=1, default=str)
     print("%s %s: units=%d obligations=%d discharged=%d (unbounded %d/%d, per-shape %d/%d) bounded-cases=%d exit=%d wall=%.1fs" % (
         prop, tier, len(results), total_obl, total_dis, n_dis, n_obl, n_dis_shape, n_obl_shape,
